@@ -14,14 +14,19 @@ if not ok:
     print('NOT CONFIRMED: nothing filed'); sys.exit(3)
 det = {}
 for p in [prop] + others:
-    out = subprocess.run(['/verif/tools/try_mutant.sh', os.path.join(src, 'patch.diff'), p], capture_output=True, text=True, env=dict(os.environ, SHOW='3')).stdout
+    if os.environ.get('ABSORB_SANDBOX'):
+        # /repo itself is busy (a background run builds from it): run the check against a patched scratch copy instead
+        out = subprocess.run(['/verif/tools/dev_sandbox.sh', 'abs' + sid, os.path.join(src, 'patch.diff'), p], capture_output=True, text=True, env=dict(os.environ, SHOW='3')).stdout
+        subprocess.run(['/verif/tools/dev_sandbox.sh', '--rm', 'abs' + sid])
+    else:
+        out = subprocess.run(['/verif/tools/try_mutant.sh', os.path.join(src, 'patch.diff'), p], capture_output=True, text=True, env=dict(os.environ, SHOW='3')).stdout
     print(out)
     m = re.search(r'exit=(\d+) violations=(\d+)', out)
     w = re.search(r'^  what: (.*)$', out, re.M)
     wall = re.search(r'wall=([\d.]+)s', out)
     det['%s/quick' % p] = {'exit': int(m.group(1)), 'violation_lines': int(m.group(2)), 'first_witness': ('what: ' + w.group(1)[:400]) if w else '',
                            'wall_s': float(wall.group(1)) if wall else None,
-                           'how': 'tools/try_mutant.sh: patch applied to /repo, check as committed, /repo restored afterwards'}
+                           'how': ('tools/dev_sandbox.sh: check as committed, run against a patched scratch copy of /repo (removed afterwards) because /repo was in use by a background run' if os.environ.get('ABSORB_SANDBOX') else 'tools/try_mutant.sh: patch applied to /repo, check as committed, /repo restored afterwards')}
 d = '/verif/seeded/' + sid
 os.makedirs(d, exist_ok=True)
 for f, t in (('patch.diff', 'patch.diff'), ('demo.rs', 'demo.rs'), ('demo_cmd.txt', 'demo_cmd.txt'), ('README.md', 'AUTHOR_NOTES.md')):
